@@ -136,6 +136,19 @@ ben("b09-schedule-as-tuple-constant", OPT, "    # Strict sequence for each step\
     "    # Strict sequence for each step\n    strict_sequence = list(_STRICT)\n\n    for _ in range(max_iterations):\n        current_contrast",
     "module-level immutable schedule copied per call", extra=[("def binary_search_lightness(\n", "_STRICT = (0.8, 1.0, 1.2, 1.4, 1.6, 1.8, 2.0, 2.2, 2.5, 2.8, 3.0)\n\n\ndef binary_search_lightness(\n")])
 
+ben("b10-debug-timing-with-a-clock", OPT, "    # Check if already accessible\n    current_contrast = calculate_contrast_ratio(text_rgb, bg_rgb)\n\n    if current_contrast >= target_contrast:\n        return text_rgb",
+    "    # Check if already accessible\n    import time as _time, logging as _logging\n    _t0 = _time.perf_counter()\n    current_contrast = calculate_contrast_ratio(text_rgb, bg_rgb)\n    _logging.getLogger(__name__).debug(\"contrast in %.6fs\", _time.perf_counter() - _t0)\n\n    if current_contrast >= target_contrast:\n        return text_rgb",
+    "a clock is read, but only for a debug message nobody receives: results do not depend on it (control for the simulated clock)")
+ben("b11-mkstemp-output-write-fd-closed", CLI, '            with open(output_path, "w", encoding="utf-8") as f:\n                f.write(tinycss2.serialize(rules))',
+    '            import os as _os, tempfile as _tf\n            _fd, _tmp = _tf.mkstemp(prefix=output_path.name + ".", suffix=".tmp", dir=str(output_path.parent))\n            try:\n                with _os.fdopen(_fd, "w", encoding="utf-8") as f:\n                    f.write(tinycss2.serialize(rules))\n                _os.chmod(_tmp, 0o644)\n                _os.replace(_tmp, output_path)\n            finally:\n                if _os.path.exists(_tmp):\n                    _os.unlink(_tmp)',
+    "output through mkstemp() next to the target with the descriptor closed and the temp removed on failure (control for the descriptor-limit environment)")
+ben("b12-stderr-tolerant-flush", CLI, "            import traceback\n", "            import traceback\n            import sys as _sys\n            if _sys.stderr is not None:\n                _sys.stderr.flush()\n",
+    "stderr flushed before the traceback, guarded for a closed stderr (control for the stderr_none environment)")
+
+ben("b13-skip-identical-rewrite", CLI, '            with open(output_path, "w", encoding="utf-8") as f:\n                f.write(tinycss2.serialize(rules))',
+    '            _new = tinycss2.serialize(rules).encode("utf-8")\n            _old = None\n            if output_path.is_file():\n                with open(output_path, "rb") as f:\n                    _old = f.read()\n            if _old != _new:\n                with open(output_path, "wb") as f:\n                    f.write(_new)',
+    "the output is left alone when it already holds exactly these BYTES (the existing output is read, but only to compare)")
+
 
 def run_benign(m, budget):
     top = f"/dev/shm/cmverif-ben-{os.getpid()}-{m['id']}"
